@@ -20,7 +20,7 @@
     any C10 observable); a top-level call whose target is a precompile runs as a call to an account
     without code (precompiles are modelled only when called from byte code, identity 0x04 only). *)
 From Coq Require Import List ZArith NArith Bool Lia FinFun.
-From Kardia Require C09.Model C09.ProofsBase C09.ProofsVM C09.Properties.
+From Kardia Require C09.Model C09.ProofsBase C09.ProofsVM C09.ProofsTx.
 From Kardia Require Import C10.U256 C10.EVM C10.ProofsInv C10.ProofsFrames C10.ProofsStatic C10.ProofsGas
   C10.ProofsTerm C10.ProofsBal Generated.C10Facts.
 Import ListNotations.
@@ -243,11 +243,13 @@ Proof.
     unfold nonce. split; [lia|exact B3].
 Qed.
 
-(** C09's theorems, discharged for the C10 interpreter (instances; every theorem of
-    C09/Properties.v of the form [forall run ca, ExecOK run -> ...] specialises the same way) *)
-Definition C09_gas_bounds_for_C10 ca := Kardia.C09.Properties.C09_gas_bounds run10 ca run10_exec_ok.
-Definition C09_pool_exact_for_C10 ca := Kardia.C09.Properties.C09_pool_exact run10 ca run10_exec_ok.
-Definition C09_nonce_for_C10 ca := Kardia.C09.Properties.C09_nonce run10 ca run10_exec_ok.
-Definition C09_fee_flow_for_C10 ca := Kardia.C09.Properties.C09_fee_flow run10 ca run10_exec_ok.
+(** C09's results, discharged for the C10 interpreter (instances of the lemmas behind C09_gas_bounds,
+    C09_pool_exact, C09_nonce and C09_fee_flow; every theorem of C09/Properties.v of the form
+    [forall run ca, ExecOK run -> ...] specialises the same way).  This file does not import
+    C09/Properties.v, so that C09/Properties.v can import it and state its theorems for [run10]. *)
+Definition C09_gas_bounds_for_C10 ca := Kardia.C09.ProofsTx.executed_gas_bounds run10 ca run10_exec_ok.
+Definition C09_pool_exact_for_C10 ca := Kardia.C09.ProofsTx.executed_pool run10 ca run10_exec_ok.
+Definition C09_nonce_for_C10 ca := Kardia.C09.ProofsTx.executed_nonce run10 ca run10_exec_ok.
+Definition C09_fee_flow_for_C10 ca := Kardia.C09.ProofsTx.executed_fee_flow run10 ca run10_exec_ok.
 
 End Bridge.
